@@ -49,6 +49,10 @@ def runs(tier):
         cfgs.append(mk(g, shuffle=(i % 2 == 0), pool=(i % 2 == 1), kind=("nested", "flat")[i == 2]))
     out.append(dict(name="C01_big", configs=cfgs, max_perm=5, check=False,
                     simulate=150 if tier == "quick" else 2500, depth=250))
+    # several hundred settings through a pool (beyond any window an executor adapter might use)
+    out.append(dict(name="C01_huge", configs=[mk([4, 4, 3, 3, 2], shuffle=False, pool=True, kind="nested")] +
+                    ([mk([4, 4, 4, 3, 2], shuffle=True, pool=True, kind="flat")] if tier == "thorough" else []),
+                    max_perm=3, check=False, simulate=1 if tier == "quick" else 3, depth=1400))
     if tier == "thorough":
         cfgs = [mk(g, shuffle=True, pool=False, kind="nested") for g in ([2, 3], [3, 2], [6], [1, 6], [2, 1, 3])]
         out.append(dict(name="C01_perm6", configs=cfgs, max_perm=6))
